@@ -99,6 +99,20 @@ fn grid() -> Vec<Case> {
             g.push(Case { cfg, seed_index: None, seed_mixed: false });
         }
     }
+    // a limit of one file with direct timestamp naming (a restart sibling can be the only file)
+    for naming in [NamingK::TimestampsDirect, NamingK::CustomDirect] {
+        g.push(Case {
+            cfg: Cfg::rot(CritK::Size(LIMIT), naming, CleanK::Log(1)),
+            seed_index: None,
+            seed_mixed: false,
+        });
+    }
+    // a suffix of two parts whose first part contains the letter r
+    for naming in [NamingK::Numbers, NamingK::NumbersDirect] {
+        let mut cfg = Cfg::rot(CritK::Size(LIMIT), naming, CleanK::Never);
+        cfg.parts.suffix = Some("err.log".into());
+        g.push(Case { cfg, seed_index: None, seed_mixed: false });
+    }
     // a basename with a dot and no suffix: the infix is not the end of the "stem"
     for naming in [NamingK::Numbers, NamingK::NumbersDirect, NamingK::Timestamps] {
         let mut cfg = Cfg::rot(CritK::Size(LIMIT), naming, CleanK::Never);
@@ -272,6 +286,8 @@ fn run_history(c: &Case, word: &[(bool, i64, usize)]) -> Result<Vec<Vec<(String,
         prev.insert(name.clone(), line);
         prev_names.push(name);
     }
+    // (seeded lines are in rotated files: no run continues them)
+    let seeded = h.accepted.len();
     let mut states = Vec::new();
     // non-rotating file: the lines the file must hold
     let mut norot_from: usize = 0;
@@ -365,6 +381,32 @@ fn run_history(c: &Case, word: &[(bool, i64, usize)]) -> Result<Vec<Vec<(String,
                         String::from_utf8_lossy(&exp)
                     ),
                 });
+            }
+        }
+        // (3) "with append, new records follow the earlier ones in the same current file": if the
+        // file that holds the previous run's last record was not over the size limit, this run's
+        // first record comes right behind it (skipped when the cleanup has removed that file)
+        if c.cfg.rotation.is_some() && *append && wrote && before_len > seeded {
+            let last = &h.accepted[before_len - 1];
+            let first = &h.accepted[before_len];
+            let due = prev.values().find(|content| content.ends_with(last)).map(|content| content.len() as u64 > LIMIT);
+            if due == Some(false) {
+                let mut pair = last.clone();
+                pair.extend(first);
+                let holds_last = snap.values().any(|content| content.windows(last.len()).any(|w| w == last.as_slice()));
+                let continued = snap.values().any(|content| content.windows(pair.len()).any(|w| w == pair.as_slice()));
+                if holds_last && !continued {
+                    return Err(Fail {
+                        clause: "append-did-not-continue",
+                        shape: dir_shape(&prev_names),
+                        run: ri,
+                        detail: format!(
+                            "run {ri} starts with append, the file holding the previous run's last record {:?} was not over the limit, but this run's first record {:?} does not follow it: files {names:?}",
+                            String::from_utf8_lossy(last),
+                            String::from_utf8_lossy(first)
+                        ),
+                    });
+                }
             }
         }
         states.push(canon(&env, &names));
